@@ -1061,16 +1061,27 @@ func TestCheck(t *testing.T) {
 		"segment delete/duplicate/append/swap/drop-tail/drop-head for every segment; splices with a same-length document under the same and under another key-encryption key (payload, header, MAC line, manifest, single segment, tag, body); "+
 		"nine misbehaving unwrap callbacks; one-byte insertions (7 values) and deletions at every header offset and at segment landmarks; ~60 semantic header edits (JSON re-encodings, field changes, MAC line spellings, line structure); "+
 		"sticky source-reader errors at every header offset, around every boundary, mid-segment, in place of the final EOF, each alone and together with the last data; seeded compound mutations. "+
+		"Huge tamper cases (after the ordinary ones, each run by one child; quick: AES-GCM, thorough: both ciphers): kit.Encrypt of a generated 4 GiB + 128 KiB + 100 byte plaintext (65539 segments, every one different) is streamed to a scratch file, then (a) segment 65536 is replaced by a copy of segment 0 and (b) segments 1 and 65537 are swapped, the tampered document is streamed through kit.Decrypt and the released bytes are compared position by position with the generator - the only mutants in which segment numbers differ in the upper half of the nonce's 32-bit counter. "+
 		"Every mutant is decrypted by the real kit.Decrypt through an all-at-once or seeded-chunk reader and read to the end. Rule: Decrypt error OR non-EOF stream error OR (bytes == plaintext AND EOF), and the released bytes are a prefix of the plaintext; "+
 		"for a source error an error is mandatory. Mutants equal to the original are skipped. Evaluations = mutants judged; enumerated families are distinct by construction, seeded compound mutants are keyed by their description; non-trivial = every mutant (it differs from the original or carries a fault).")
 	rec.Note("require", []string{"outcome.decrypt_error", "outcome.stream_error", "outcome.stream_error_after_authentic_prefix", "outcome.accepted_identical_plaintext",
 		"srcerr.surfaced", "truncate.at.segment-boundary", "truncate.at.header-end", "truncate.at.segment-tag", "truncate.at.segment-body", "srcerr.at.final-eof", "srcerr.at.final-eof+data",
-		"rejected_or_identical.seg-swap", "rejected_or_identical.splice-samekek", "rejected_or_identical.splice-otherkek", "rejected_or_identical.unwrap", "rejected_or_identical.extend"})
+		"rejected_or_identical.seg-swap", "rejected_or_identical.splice-samekek", "rejected_or_identical.splice-otherkek", "rejected_or_identical.unwrap", "rejected_or_identical.extend",
+		"huge.tamper_rejected.seg-replace", "huge.tamper_rejected.seg-swap", "huge.rejected_exactly_at_segment_65536"})
 	var plan []caseSpec
 	for bi := range specs {
 		for fi := range families {
 			plan = append(plan, caseSpec{bi, fi})
 		}
+	}
+	// the huge tamper cases come after the ordinary ones; each is run by exactly one child
+	for i, h := range hugePlan() {
+		idx := len(plan) + i
+		if !mon.Mine(idx) {
+			continue
+		}
+		rec.Begin(idx, h.String())
+		runHuge(idx, h)
 	}
 	bases := map[int]*base{}
 	for idx, c := range plan {
